@@ -146,7 +146,7 @@ def build_cases(thorough):
             s = [211, 212, 213, 214, 215, 216, 217]
             s[i] = v
             cases.append(("statm", s))
-    nmax = 3 if thorough else 2
+    nmax = 4 if thorough else 2
     plist = [x.decode("latin-1") for x in PATHS]
     combos = [()]
     for n in range(1, nmax + 1):
@@ -186,7 +186,7 @@ def run(ctx):
                    "rendered by simk and read through memory_info, memory_full_info, memory_maps(both forms), memory_percent; "
                    "distinct by construction",
            "per_dimension": kinds, "exhaustive": True, "samples": [list(c) for c in sample(cases, 6)],
-           "bounds": "all lists of <= %d mappings over %d paths x 3 roll-up modes; all subsets of %d optional lines" % (3 if ctx.thorough else 2, len(PATHS), len(OPTS))}
+           "bounds": "all lists of <= %d mappings over %d paths x 3 roll-up modes; all subsets of %d optional lines" % (4 if ctx.thorough else 2, len(PATHS), len(OPTS))}
     return {"coverage": cov, "violations": viols, "assumptions": ["smaps rendered like fs/proc/task_mmu.c show_smap(); roll-up = field-wise sums"]}
 
 
